@@ -37,8 +37,9 @@ def case_strategy(draw, ctx, kinds=("energy", "detector")):
         tot = sum(faces[f"{s}_{scenes.AXNAME[ax]}"].get("thickness", 0) for s in ("min", "max"))
         if sh[ax] - tot < 3:
             sh[ax] = tot + 3
-    T = draw(st.integers(50, 110))
     kind = draw(st.sampled_from(list(kinds)))
+    # the convergence condition needs (prev_periods + 1) periods of ~14-18 steps inside the run
+    T = draw(st.integers(50, 110)) if kind == "energy" else draw(st.integers(76, 120))
     if not any(f["kind"] == "pml" for f in faces.values()) and draw(st.integers(0, 3)) > 0:
         ax = draw(st.integers(0, 2))
         for side in ("min", "max"):
@@ -76,7 +77,7 @@ def case_strategy(draw, ctx, kinds=("energy", "detector")):
             "max_mode": draw(st.sampled_from(["default", "mid", "late", "total", "above"])),
             "min_frac": draw(st.floats(0.0625, 0.875, width=32)), "max_frac": draw(st.floats(0.125, 1.0, width=32))}
     if kind == "detector":
-        case["prev_periods"] = draw(st.integers(1, 2))
+        case["prev_periods"] = draw(st.sampled_from([1, 2, 2, 3]))
     return case
 
 
